@@ -122,7 +122,7 @@ def cover_select(behs, n, rnd, feats_fn, pool_cap=8000):
 def seed_part(tier, rnd, extra_sched=None, only_extra=False, extra_trunc=None, b0=0):
     stats, scheds, cex = [], [], []
     # (config, number of schedules to replay; None = every one)
-    plan = [("MC_C12_seed_quick.cfg", None), ("MC_C12_seed_quick3.cfg", 1500)] if tier == "quick" else \
+    plan = [("MC_C12_seed_quick.cfg", None), ("MC_C12_seed_quick3.cfg", 1000)] if tier == "quick" else \
            [("MC_C12_seed_quick.cfg", None), ("MC_C12_seed_quick3.cfg", None), ("MC_C12_seed.cfg", 4000), ("MC_C12_seed4.cfg", 6000)]
     cfgs = [] if only_extra else [c for c, _ in plan]
     per_cfg = {}
@@ -256,7 +256,7 @@ def sec_part(tier, rnd, extra_beh=None, only_extra=False, setup=None):
         stats.append({"cfg": "MC_C12_sec_atrest.cfg (NoClearSecretAtRest as a plain invariant)", "mutant": True, "states": r["states"],
                       "transitions": r["transitions"],
                       "NoClearSecretAtRest_violated_in_model": any("Inv_AtRestStrict" in t for t in r["violated"])})
-    n = 80 if tier == "quick" else 300
+    n = 60 if tier == "quick" else 400
     chosen, generated = [], 0
     for cfg, all_b in per_cfg.items():
         generated += len(all_b)
@@ -273,8 +273,11 @@ def sec_part(tier, rnd, extra_beh=None, only_extra=False, setup=None):
     groups = {}
     for b in cexb + (extra_beh or []):
         groups.setdefault(json.dumps(setup or SEC_SETUP), []).append(b)
-    for cfg, b in chosen:
+    for i, (cfg, b) in enumerate(chosen):
         st = {"nfund": 3, "pad": 3} if "sec3" in cfg else SEC_SETUP
+        # every fifth behaviour runs with w1 as a masked wallet (keychain mask token)
+        if "sec3" not in cfg and i % 5 == 4:
+            st = dict(SEC_SETUP, masked=True)
         groups.setdefault(json.dumps(st), []).append(b)
     keys, nonconfs, events_all, nbeh = {}, [], [], 0
     for gi, (st, bl) in enumerate(sorted(groups.items())):
